@@ -131,7 +131,10 @@ class BooleanExpression(Expression):
             elif isinstance(expression, LogicalNotExpression):
                 operand_str = _str(expression.right, PRECEDENCE_PREFIX)
                 expr = f"not {operand_str}"
-                if left or parent_precedence > PRECEDENCE_PREFIX:
+                if left or (
+                    parent_precedence > PRECEDENCE_PREFIX
+                    and not _contains_range(expression)
+                ):
                     return f"({expr})"
                 return expr
             elif type(expression) in _COMPARISONS:
@@ -148,7 +151,12 @@ class BooleanExpression(Expression):
                 return str(expression)
 
             expr = f"{left_str} {op} {right_str}"
-            if left or precedence < parent_precedence:
+            # Parentheses around a right-hand operand are optional. Leave them
+            # out if the group would contain a range literal, because the
+            # expression lexer takes a "(" followed by ".." for a range.
+            if left or (
+                precedence < parent_precedence and not _contains_range(expression)
+            ):
                 return f"({expr})"
             return expr
 
@@ -440,6 +448,12 @@ class ContainsExpression(Expression):
 
     def children(self) -> list[Expression]:
         return [self.left, self.right]
+
+
+def _contains_range(expression: Expression) -> bool:
+    return isinstance(expression, RangeLiteral) or any(
+        _contains_range(child) for child in expression.children()
+    )
 
 
 _LOGICAL = (LogicalAndExpression, LogicalOrExpression, LogicalNotExpression)
